@@ -2124,6 +2124,10 @@ def _ufunc_logical_skipna(
     # all types other than strings or objects assume truthy
     if array.ndim == 1:
         return True
+    if out is not None:
+        # the caller reads the result from out: it must be written, not left uninitialized
+        out[NULL_SLICE] = True
+        return out
     return np.full(array.shape[0 if axis else 1], fill_value=True, dtype=bool)
 
 
